@@ -26,22 +26,22 @@ import (
 //
 //   case: osc state                   impl: change ok     (operStateChange alone)
 
-var prNames = []string{"", "eth0", "wlan0", "br-lan", "veth1234", "lo"}
+var vfPrNames = []string{"", "eth0", "wlan0", "br-lan", "veth1234", "lo"}
 
-type prMsg struct {
+type vfPrMsg struct {
 	kind     int
 	hasAttrs bool
 	iface    int
 	oper     uint8
 }
 
-func (m prMsg) build() rtnetlink.Message {
+func (m vfPrMsg) build() rtnetlink.Message {
 	switch m.kind {
 	case 0:
 		lm := &rtnetlink.LinkMessage{Index: uint32(m.iface + 1)}
 		if m.hasAttrs {
 			lm.Attributes = &rtnetlink.LinkAttributes{
-				Name:             prNames[m.iface],
+				Name:             vfPrNames[m.iface],
 				OperationalState: rtnetlink.OperationalState(m.oper),
 			}
 		}
@@ -50,7 +50,7 @@ func (m prMsg) build() rtnetlink.Message {
 		am := &rtnetlink.AddressMessage{Index: uint32(m.iface + 1)}
 		if m.hasAttrs {
 			// a Label equal to an interface name must not be mistaken for a link event
-			am.Attributes = &rtnetlink.AddressAttributes{Label: prNames[m.iface]}
+			am.Attributes = &rtnetlink.AddressAttributes{Label: vfPrNames[m.iface]}
 		}
 		return am
 	case 2:
@@ -60,7 +60,7 @@ func (m prMsg) build() rtnetlink.Message {
 	}
 }
 
-func prRun(out *vfh.Out, ms []prMsg) {
+func vfPrRun(out *vfh.Out, ms []vfPrMsg) {
 	c := new(vfh.Toks).S("pr").N(len(ms))
 	msgs := make([]rtnetlink.Message, len(ms))
 	for i, m := range ms {
@@ -74,8 +74,8 @@ func prRun(out *vfh.Out, ms []prMsg) {
 			}
 		}()
 		cs := process(msgs)
-		id := make(map[string]int, len(prNames))
-		for i, n := range prNames {
+		id := make(map[string]int, len(vfPrNames))
+		for i, n := range vfPrNames {
 			id[n] = i
 		}
 		keys := make([]int, 0, len(cs))
@@ -90,8 +90,8 @@ func prRun(out *vfh.Out, ms []prMsg) {
 		t := new(vfh.Toks).N(len(keys))
 		for _, k := range keys {
 			name := "?"
-			if k < len(prNames) {
-				name = prNames[k]
+			if k < len(vfPrNames) {
+				name = vfPrNames[k]
 			}
 			l := cs[name]
 			t.N(k).N(len(l))
@@ -104,14 +104,14 @@ func prRun(out *vfh.Out, ms []prMsg) {
 	out.Line(c.String(), impl)
 }
 
-var prKnown = []rtnetlink.OperationalState{
+var vfPrKnown = []rtnetlink.OperationalState{
 	rtnetlink.OperStateUnknown, rtnetlink.OperStateNotPresent, rtnetlink.OperStateDown,
 	rtnetlink.OperStateLowerLayerDown, rtnetlink.OperStateTesting, rtnetlink.OperStateDormant,
 	rtnetlink.OperStateUp,
 }
 
-func prRandMsg(r *vfh.Rand, nIfaces int) prMsg {
-	m := prMsg{kind: 0, hasAttrs: true, iface: r.Intn(nIfaces)}
+func vfPrRandMsg(r *vfh.Rand, nIfaces int) vfPrMsg {
+	m := vfPrMsg{kind: 0, hasAttrs: true, iface: r.Intn(nIfaces)}
 	switch {
 	case r.Chance(1, 8):
 		m.kind = 1 + r.Intn(3)
@@ -123,7 +123,7 @@ func prRandMsg(r *vfh.Rand, nIfaces int) prMsg {
 	case r.Chance(1, 8):
 		m.oper = uint8(7 + r.Intn(249)) // unrecognised
 	default:
-		m.oper = uint8(vfh.Pick(r, prKnown))
+		m.oper = uint8(vfh.Pick(r, vfPrKnown))
 	}
 	return m
 }
@@ -135,20 +135,20 @@ func verifC19Process(t *testing.T, r *vfh.Rand, out *vfh.Out) {
 		out.Line(fmt.Sprintf("osc %d", s), new(vfh.Toks).U(uint64(c)).B(ok).String())
 	}
 	// boundary batches
-	prRun(out, nil)
+	vfPrRun(out, nil)
 	for s := 0; s < 256; s++ { // one link message of every state, on two interface names
-		prRun(out, []prMsg{{0, true, 1 + s%2, uint8(s)}})
+		vfPrRun(out, []vfPrMsg{{0, true, 1 + s%2, uint8(s)}})
 	}
 	for k := 1; k <= 3; k++ { // other message types, nil attributes
-		prRun(out, []prMsg{{k, true, 1, 6}, {k, false, 1, 6}})
+		vfPrRun(out, []vfPrMsg{{k, true, 1, 6}, {k, false, 1, 6}})
 	}
-	prRun(out, []prMsg{{0, false, 1, 6}})
-	prRun(out, []prMsg{{0, true, 0, 6}, {0, true, 0, 2}}) // the empty interface name
+	vfPrRun(out, []vfPrMsg{{0, false, 1, 6}})
+	vfPrRun(out, []vfPrMsg{{0, true, 0, 6}, {0, true, 0, 2}}) // the empty interface name
 	// every ordered pair of known states on one interface, and split over two interfaces
-	for _, a := range prKnown {
-		for _, b := range prKnown {
-			prRun(out, []prMsg{{0, true, 1, uint8(a)}, {0, true, 1, uint8(b)}})
-			prRun(out, []prMsg{{0, true, 1, uint8(a)}, {1, true, 1, 6}, {0, true, 2, uint8(b)}, {0, false, 1, 0}, {0, true, 1, 200}})
+	for _, a := range vfPrKnown {
+		for _, b := range vfPrKnown {
+			vfPrRun(out, []vfPrMsg{{0, true, 1, uint8(a)}, {0, true, 1, uint8(b)}})
+			vfPrRun(out, []vfPrMsg{{0, true, 1, uint8(a)}, {1, true, 1, 6}, {0, true, 2, uint8(b)}, {0, false, 1, 0}, {0, true, 1, 200}})
 		}
 	}
 	// random batches
@@ -158,11 +158,11 @@ func verifC19Process(t *testing.T, r *vfh.Rand, out *vfh.Out) {
 		if r.Chance(1, 10) {
 			ln = r.Intn(40)
 		}
-		nIf := 1 + r.Intn(len(prNames))
-		ms := make([]prMsg, ln)
+		nIf := 1 + r.Intn(len(vfPrNames))
+		ms := make([]vfPrMsg, ln)
 		for j := range ms {
-			ms[j] = prRandMsg(r, nIf)
+			ms[j] = vfPrRandMsg(r, nIf)
 		}
-		prRun(out, ms)
+		vfPrRun(out, ms)
 	}
 }
